@@ -57,25 +57,64 @@ ORDER = [
 ]
 
 
+def compile_body(cx):
+    """compile with the two one-line initialisation helpers spliced in: these two steps are defined by what they do
+    (init_full_state calls), so inlining or renaming the helper changes nothing"""
+    return cx.body(COMP + 'compile', extra=[COMP + 'add_dead_state_loop', COMP + 'init_unanchored_start_state'])
+
+
+def _phase_events(r):
+    """[(phase name, index in the effect sequence)] of one successful path through compile"""
+    out = []
+    named = {}
+    for i, e in enumerate(r.effects):
+        if e[0] == 'store':
+            tt = e[1]
+            named[repr(e[2])] = cstr(tt)
+            if tt[0] == 'f' and tstr(tt[1]) in ('self.nfa', 'self.nfa.special'):
+                out.append((tt[2] + '=', i))
+        elif e[0] == 'call':
+            c = e[1]
+            sp = short(c[1])
+            m = re.search(r'Compiler::(\w+)$', sp)
+            if m:
+                out.append((m.group(1), i))
+            elif sp.endswith('NFA::init_full_state') and len(c[2]) == 3:
+                st, tg = c[2][1], c[2][2]
+                stn = cstr(st) if re.search(r'special\.start_(un)?anchored_id$', cstr(st)) else named.get(repr(st))
+                if is_named_const(peel(st), r'NFA::DEAD$') and is_named_const(peel(tg), r'NFA::DEAD$'):
+                    out.append(('add_dead_state_loop', i))
+                elif is_named_const(peel(tg), r'NFA::FAIL$') and stn in ('self.nfa.special.start_unanchored_id', 'self.nfa.special.start_anchored_id'):
+                    out.append(('init_unanchored_start_state', i))
+                    out.append(('init:' + stn, i))
+    return out
+
+
 def r01_1(cx):
-    b = cx.body(COMP + 'compile')
-    site = {}
+    b = compile_body(cx)
+    rows = [r for r in summarize(cx.facts, b) if r.end == 'return' and is_agg(r.ret, r'Result$', 'Ok')]
+    evs = [_phase_events(r) for r in rows]
+    want = {nm: 1 for nm in PHASES}
+    want['init_unanchored_start_state'] = 2
     for nm in PHASES:
-        if nm.endswith('='):
-            fld = nm[:-1]
-            st = [bi for bi, si, tt, v, s in b.field_stores() if tt[0] == 'f' and tt[2] == fld and tstr(tt[1]) in ('self.nfa', 'self.nfa.special')]
-            site[nm] = st
-        else:
-            site[nm] = [bi for bi, t in b.calls(r'Compiler::%s$' % nm)]
-    oks = [bi for bi, si, pl, st in b.stores() if si != 'term' and pl['l'] == 0 and not pl['pr'] and is_agg(b.rvalue_term(st['r'], 0, bi), r'Result$', 'Ok')]
-    for nm in PHASES:
-        s = site[nm]
-        ok = len(s) == 1 and bool(oks) and must_pass(b, oks, s)
-        cx.report('R01.1', b, 'phase:' + nm.rstrip('='), ok, 'phase %s runs exactly once on every path to Ok' % nm.rstrip('=') if ok else 'phase %s has %d site(s) or can be skipped on the way to Ok' % (nm.rstrip('='), len(s)))
+        cnt = [len([1 for n_, i in ev if n_ == nm]) for ev in evs]
+        ok = bool(rows) and all(c == want[nm] for c in cnt)
+        if nm == 'init_unanchored_start_state':
+            ok = ok and all(len([1 for n_, i in ev if n_ == 'init:self.nfa.special.start_%sanchored_id' % u]) == 1 for ev in evs for u in ('un', ''))
+        cx.report('R01.1', b, 'phase:' + nm.rstrip('='), ok, 'phase %s runs exactly once on every path to Ok (%d successful path(s))' % (nm.rstrip('='), len(rows)) if ok else 'phase %s runs %s time(s) on the paths to Ok (expected %d)' % (nm.rstrip('='), sorted(set(cnt)), want[nm]))
     for a, c, why in ORDER:
-        if len(site[a]) != 1 or len(site[c]) != 1:
+        ok = True
+        seen = False
+        for ev in evs:
+            ia = [i for n_, i in ev if n_ == a]
+            ic = [i for n_, i in ev if n_ == c]
+            if not ia or not ic:
+                continue
+            seen = True
+            if max(ia) >= min(ic):
+                ok = False
+        if not seen:
             continue
-        ok = b.dominates(site[a][0], site[c][0]) and site[a][0] != site[c][0]
         cx.report('R01.1', b, 'order:%s<%s' % (a.rstrip('='), c.rstrip('=')), ok, '%s precedes %s (%s)' % (a.rstrip('='), c.rstrip('='), why) if ok else '%s does not precede %s: %s' % (a.rstrip('='), c.rstrip('='), why))
     # byte classes come from the compiler's byteset; prefilter from the compiler's prefilter builder
     for bi, si, tt, v, s in b.field_stores():
